@@ -17,7 +17,7 @@ CANON = ['{\n  a = 1;\n}\n', '{ a = 1; }\n', '{ pkgs }:\n{\n  a = 1;\n  b = {\n 
          '# header\n{\n  a = [\n    1\n    2\n  ];\n  # note\n  b.c = true;\n}\n', '{ }\n', '{\n  a = 1;\n}', '{ a = 1; }', '{\n  a = 1;\n}\n\n']
 NONCANON = ['\ufeff{ a = 1; }\n', '\ufeff{\n  a = 1;\n}\n', '{ a = 1; }\r\n', '{\r\n  a = 1;\r\n}\r\n', '{ a = "é→"; }\n', '{a=1;}', '{ a   =  1 ; }\n', '{\n\ta = 1;\n}\n', '\n{ a = 1; }\n', '{ a = 1; }   ', '{\n  a = 1;\n\n\n  b = 2;\n}\n', '[ 1 2 ]\n', 'x: x\n', '1\n']
 BROKEN = ['{ a = 1 }', '{\n  a = 1;\n  b = 2\n}\n', '{ a = [ 1 2; }', 'a.${b', '{ a, , b }: { a = 1; }\n', '{ a = 1;', '{ a = ; }\n', '{ a = 1; }}\n', 'let in', '{ a = 1 }\n', ')(', '{ a = "x; }\n', '\n\n{ a = 1; \n', '  { a = [ 1; }  \n', '']
-PATHS = ['a', 'b', 'b.c', 'z', 'a.b', '"a"', 'a..b', '', '@v', '@w', '@@v', '"q', 'x.y.z', 'é', '"é"']
+PATHS = ['a', 'b', 'b.c', 'z', 'a.b', '"a"', 'a..b', '', '@v', '@w', '@@v', '"q', 'x.y.z', 'é', '"é"', 'b\n', 'a\n', 'a.b\n', '@b\n', ' b', 'b ', 'b\t', 'b\r']
 VALUES = ['2', '"s"', '[ 1 2 ]', '{ k = 1; }', '1 +', '', '1 2', 'x: x', '# c', '"é"']
 def text():
     r = R.random()
@@ -25,6 +25,9 @@ def text():
     if r < 0.7: return R.choice(NONCANON), 'noncanonical'
     return R.choice(BROKEN), 'erroneous'
 cases = []
+# deterministic core: every canonical / non-canonical text under test, set and rm of an existing key (every final-newline situation on both channels)
+for t in CANON: cases += [{'cmd': cm, 'text': t, 'kind': 'canonical', 'npath': 'a', 'value': '2'} for cm in ('test', 'set', 'rm')]
+for t in NONCANON: cases += [{'cmd': cm, 'text': t, 'kind': 'noncanonical', 'npath': 'a', 'value': '2'} for cm in ('test', 'set')]
 for _ in range(N):
     t, kind = text()
     cmd = R.choice(['test', 'test', 'set', 'set', 'set', 'rm', 'rm', 'bogus'])
@@ -84,6 +87,11 @@ for c, (o1, o2) in zip(cases, obs):
         else:
             want = r if r.endswith('\n') else r + '\n'
             if outs != want or rc != 0: what = 'CLI wrote %r (status %d), library result terminated is %r' % (outs[-40:], rc, want[-40:])
+            elif c['kind'] == 'canonical':
+                # what a successful edit of a canonical file emits is itself accepted by `nima test` (no syntax error, rebuilds to itself)
+                try: again = parse(outs); ok_again = (not parse_to_ast(outs).has_error) and again.rebuild() == outs
+                except Exception: ok_again = False
+                if not ok_again: what = 'the text emitted by a successful %s on a canonical input is rejected by `nima test`' % c['cmd']
     if what: viol.append({'what': what, 'cmd': c['cmd'], 'text': c['text'], 'npath': c['npath'], 'value': c['value']})
     if exc is None and c['text'].isascii() and outs.isascii() and c['npath'].isascii() and c['value'].isascii() and '\r' not in outs:
         lr = lib['set'] if lib['set'] is None or lib['set'].isascii() else None
